@@ -16,6 +16,8 @@ package main
 //                               BSorted[by class]. A walk (op 5, 6, 7) that is not over after 2n+3 pages is status 2.
 // op 6 table [kw] [k asc]    -> (asc = 0: the same walk descending)
 // op 8 step step ...         -> a history of reloads / creations / lookups in fresh driver state (c11hist.go)
+// op 12 [tail n records] [v G R] obs...
+//                            -> lookups with BBusyState left set over a whole table, and by G goroutines at once (c11busy.go)
 // op 10 names [ftitles] [mode f...] [k asc by]
 //                            -> FILTERED listing walk through bbs.LoadGeneralBoards: ftitles = one NUL-terminated whole title per board
 //                               (class, blank, the rest); mode 1 = title filter f, 2 = keyword filter f (title or name); by 0 = name,
@@ -204,6 +206,10 @@ func init() {
 			if op == 8 { // a history in fresh driver state: c11hist.go
 				last = "\x00"
 				return c11Scenario(env, args[1:])
+			}
+			if op == 12 { // lookups while a writer is stopped inside its critical section, and by several goroutines at once: c11busy.go
+				last = "\x00"
+				return c11StalledWriter(env, args[1:])
 			}
 			if op == 10 {
 				loadFull(args[1], args[2])
